@@ -304,7 +304,7 @@ def _basis_step(case, rec, si, o, m, basis, fresh, nel, ndofs, res, jac, state):
 
 @st.composite
 def argshape_cases(draw, tier):
-    form = draw(st.sampled_from(['loopsum-index', 'loopsum-index-x', 'loopsum-take', 'insertaxis-sum', 'range-sum', 'loopcat', 'nested-loop']))
+    form = draw(st.sampled_from(['loopsum-index', 'loopsum-index-x', 'loopsum-take', 'insertaxis-sum', 'range-sum', 'loopcat', 'nested-loop', 'insertaxis-view', 'insertaxis-view-x', 'range-view']))
     cfg = dict(simplify=draw(st.booleans()), optimize=draw(st.booleans()), cache=draw(st.sampled_from([True, True, False])))
     steps = [dict(n=draw(st.integers(0, 4)), x=draw(st.sampled_from([-1.5, -.5, .25, 1., 2.])), scribble=draw(st.booleans())) for _ in range(draw(st.integers(2, 8)))]
     return dict(form=form, cfg=cfg, steps=steps, m=draw(st.integers(1, 3)))
@@ -325,6 +325,13 @@ def _argshape_build(form, m):
         return ev.loop_sum(ev.get(x, 0, i), i), lambda N, X: X[:N].sum()
     if form == 'insertaxis-sum':         # sum over an inserted axis of length n
         return ev.Sum(ev.InsertAxis(x, n)), lambda N, X: X * N
+    if form == 'insertaxis-view':        # a computed constant (itself a broadcast view) broadcast along an axis whose length is an argument: the result is a view
+        base = ev.InsertAxis(ev.Range(ev.constant(3)) + ev.constant(5), ev.constant(2))
+        return ev.InsertAxis(ev.astype(base, float), n), lambda N, X: numpy.broadcast_to((numpy.arange(3.) + 5)[:, None, None], (3, 2, N)).copy()
+    if form == 'insertaxis-view-x':
+        return ev.InsertAxis(ev.sin(x), n), lambda N, X: numpy.broadcast_to(numpy.sin(X)[:, None], (4, N)).copy()
+    if form == 'range-view':
+        return ev.astype(ev.Range(n), float) * ev.constant(float(m)), lambda N, X: numpy.arange(N, dtype=float) * m
     if form == 'range-sum':
         return ev.Sum(ev.astype(ev.Range(n), float) * ev.constant(float(m))), lambda N, X: numpy.float64(m * sum(range(N)))
     if form == 'loopcat':                # concatenation of n chunks of length m: the shape of the result depends on n
@@ -366,9 +373,63 @@ def check_argshape(case, rec):
     rec.label('argshape:' + case['form'], 'argshape-distinct-lengths:%d' % min(len(seen), 3))
 
 
+# ---- long-lived System objects: assemble_* / solve in any order with changing arguments --------------------------------------------------
+
+@st.composite
+def system_cases(draw, tier):
+    n = draw(st.integers(1, 3))
+    kind = draw(st.sampled_from(['linear-const', 'linear-t', 'linear-t', 'nonlinear']))
+    calls = [dict(m=draw(st.sampled_from(['jacobian', 'residual', 'jacobian_residual', 'solve', 'jacobian', 'jacobian_residual'])), t=draw(st.sampled_from([1., 2., 5., 7.])), u=draw(st.sampled_from([0., .5, -1.])))
+             for _ in range(draw(st.integers(2, 7)))]
+    return dict(n=n, kind=kind, A=[draw(st.sampled_from([-1., -.5, .5, 1., 2.])) for _ in range(n * n)], calls=calls)
+
+
+def check_system(case, rec):
+    """one solver.System object is asked for jacobians, residuals and solutions in a generated order with a changing non-trial argument t:
+    every answer equals that of a System built freshly for that call"""
+    import warnings, treelog
+    from nutils import function, solver
+    n = case['n']
+    A = numpy.array(case['A']).reshape(n, n); A = A + numpy.diag(abs(A).sum(1) + 1)
+    def build():
+        u = function.Argument('u', (n,)); t = function.Argument('t', ())
+        M = function.Array.cast(A) * (t if case['kind'] != 'linear-const' else 1.)
+        res = (M * u[None, :]).sum(1) - (1 + numpy.arange(n)) * (t if case['kind'] == 'linear-const' else 1.)
+        if case['kind'] == 'nonlinear': res = res + u ** 3
+        return solver.System([res], trial='u')
+    def ask(S, c):
+        args = dict(t=numpy.array(c['t']), u=numpy.full(n, c['u']))
+        argobj, x = S.deconstruct(args, {})
+        if c['m'] == 'jacobian': return [S.assemble_jacobian(argobj, x).export('dense')]
+        if c['m'] == 'residual': return [numpy.asarray(S.assemble_residual(argobj, x))]
+        if c['m'] == 'jacobian_residual':
+            j, r = S.assemble_jacobian_residual(argobj, x)
+            return [j.export('dense'), numpy.asarray(r)]
+        return [numpy.asarray(S.solve(arguments=args, tol=1e-10, maxiter=40)['u'])]
+    with warnings.catch_warnings(), treelog.set(treelog.NullLog()), numpy.errstate(all='ignore'):
+        warnings.simplefilter('ignore')
+        S = build()
+        for i, c in enumerate(case['calls']):
+            try:
+                got = ask(S, c)
+            except Exception as e:
+                try:
+                    ask(build(), c)
+                except Exception:
+                    rec.label('system:call-raises-on-a-fresh-system-too'); continue
+                raise Violation('history-dependence', f'{case["kind"]} call {i} {c} after {case["calls"][:i]}: reused System raised {type(e).__name__}: {str(e)[:200]}, a fresh one does not', where='system:raised')
+            want = ask(build(), c)
+            for g, w in zip(got, want):
+                if g.shape != w.shape or not numpy.allclose(g, w, rtol=1e-12, atol=1e-12):
+                    raise Violation('history-dependence', f'{case["kind"]} system, call {i} {c} after {[(q["m"], q["t"]) for q in case["calls"][:i]]}: reused System returned {g.tolist()}, a fresh System {w.tolist()}', where='system:' + c['m'])
+    rec.nontrivial = len({c['t'] for c in case['calls']}) >= 2
+    rec.label('system:' + case['kind'], *('system-call:' + c['m'] for c in case['calls']))
+
+
 SUBS = [Sub('history', cases, check, {'quick': 1500, 'thorough': 12000}, weight=3, timeout=25),
         Sub('basis', basis_cases, check_basis, {'quick': 25, 'thorough': 300}, weight=1, timeout=120),
-        Sub('argshape', argshape_cases, check_argshape, {'quick': 200, 'thorough': 3000}, weight=1, timeout=60)]
+        Sub('argshape', argshape_cases, check_argshape, {'quick': 200, 'thorough': 3000}, weight=1, timeout=60),
+        Sub('system', system_cases, check_system, {'quick': 100, 'thorough': 2000}, weight=1, timeout=120)]
 
 def _upstream_c01(case, v):
     prog = case.get('prog', case)
